@@ -55,6 +55,7 @@ func (c13) Floor(tier string) int { return 800 }
 // ---- generator tree ------------------------------------------------------------------------
 
 type aNode struct {
+	tag     string // a local tag written on an anchored map (`&a1 !settings`): a map all the same
 	kind    string // scalar | seq | map | alias
 	val     *ref.V // scalar
 	items   []*aNode
@@ -83,6 +84,7 @@ type c13Gen struct {
 	overlap bool
 	aliases int
 	keyAnch int
+	tagged  int
 }
 
 var c13Keys = []string{"x", "y", "z", "k", "j"}
@@ -197,6 +199,10 @@ func (g *c13Gen) doc() *aNode {
 		g.allAnch, g.mapAnch = savedAll, savedMap
 		d.anchor = name
 		g.anchors[name] = d
+		if d.kind == "map" && r.IntN(8) == 0 {
+			d.tag = []string{"!settings", "!base", "!!map"}[r.IntN(3)]
+			g.tagged++
+		}
 		if d.kind == "map" && r.IntN(3) == 0 {
 			// a scalar INSIDE the anchored map carries an anchor of its own (aliased further down)
 			for ei := range d.entries {
@@ -275,6 +281,9 @@ func (n *aNode) emit(sb *strings.Builder, indent int, inline bool) {
 			it.emitValue(sb, indent+1)
 		}
 	case "map":
+		if n.tag != "" && n.anchor != "" {
+			anc += n.tag + " "
+		}
 		if len(n.entries) == 0 {
 			sb.WriteString(" " + anc + "{}\n")
 			return
@@ -462,6 +471,9 @@ func (p c13) Run(w *mon.Worker, idx int) mon.Result {
 	if g.keyAnch > 0 {
 		res.Tags = append(res.Tags, "anchor_on_key")
 	}
+	if g.tagged > 0 {
+		res.Tags = append(res.Tags, "tagged_anchored_map")
+	}
 
 	type route struct {
 		name   string
@@ -572,6 +584,39 @@ func (p c13) Run(w *mon.Worker, idx int) mon.Result {
 					return fail("after one pass through `yq .`, `%s` resolves aliases/merges differently\n--- yq . ---\n%s expected %s\n observed %s", ex, saved, canon(want), canon(vv[0]))
 				}
 			}
+		}
+	}
+	// route 2e: an assignment whose right-hand side yields an alias, then a read through the assigned node in the same
+	// evaluation: the node reads as what it was given
+	if idx%4 == 1 {
+		var aliasKeys []string
+		for _, e := range root.entries {
+			if e.v != nil && e.v.kind == "alias" {
+				aliasKeys = append(aliasKeys, e.key)
+			}
+		}
+		for i, k := range aliasKeys {
+			if i >= 2 {
+				break
+			}
+			direct, e1, p1 := yqx.Eval("."+k, text, "yaml", "json")
+			res.Evals++
+			if e1 != nil || p1 != nil {
+				continue
+			}
+			forms := []string{fmt.Sprintf(".zz_new = .%s | .zz_new", k), fmt.Sprintf(".zz_new |= 1 | .zz_new = .%s | .zz_new", k)}
+			if len(aliasKeys) >= 2 {
+				other := aliasKeys[(i+1)%len(aliasKeys)]
+				forms = append(forms, fmt.Sprintf(".%s = .%s | .%s", other, k, other))
+			}
+			for _, f := range forms {
+				via, e2, p2 := yqx.Eval(f, text, "yaml", "json")
+				res.Evals++
+				if p2 != nil || e2 != nil || via != direct {
+					return fail("`.%s` reads %s; after `%s` the assigned node reads %s (err %v %v)\n%s", k, clipStr(direct, 200), f, clipStr(via, 200), e2, p2, text)
+				}
+			}
+			res.Tags = append(res.Tags, "assigned_alias_read")
 		}
 	}
 	// route 2d: the conversion done by an encoder INSIDE the expression (it works on a copy of the document) resolves every
